@@ -23,6 +23,16 @@
      consuming everything and restoring the depth budget; `C01_text_valid` (the text is valid UTF-8,
      which is what makes the &str source applicable); `C01_roundtrip_plain` (names with a non-ASCII
      alphabetic initial).
+   * the independent-reader clause (LexprModel/Spec/Reader.lean: a reader written from the documented
+     R6RS/R7RS-style grammar — tokenise, classify, build with a stack machine; it shares nothing with the
+     model of the crate's parser; LexprModel/Proofs/SpecRT*.lean, imported here): `C01_independent` below —
+     for every supported value whose names are identifiers of the grammar, `Spec.readScheme` reads the
+     default printer's text as exactly that value: NO nesting bound, and floats need only `RyuSpec` (the
+     specification gives a literal its correctly rounded value), not the exactness window.  The identifier
+     hypothesis is needed and is what the property says ("names are plain identifiers"): witnesses
+     `SpecRT.witness_dot5` (the symbol `.5` prints as `.5`, a number in the grammar), `witness_quote`,
+     `witness_hash`, `witness_plus_i`, `witness_keyword_digit`.  Tie: the `specrd` operations run the
+     specification reader on texts written by the real printer.
   Not covered by the theorem: float leaves outside the exactness window in the default build (the
   property asks only for C05 accuracy there, proved in Props/C05 as `C05_accuracy`); they are carried by
   the correspondence and the oracle.
@@ -33,6 +43,7 @@ import LexprModel.Props.C02
 import LexprModel.Proofs.ListRTGlue
 import LexprModel.Proofs.Decimals
 import LexprModel.Proofs.FullRT
+import LexprModel.Proofs.SpecRTExec
 namespace Lexpr
 
 /-- **C01_roundtrip** (proved for every value without floats and byte vectors; see the header):
@@ -55,6 +66,14 @@ theorem C01_roundtrip_all_sources (cfg : Parse.Cfg) (ho : cfg.opts = Parse.Optio
     ∃ s', Parse.fromTrait cfg (Parse.initSt m (Print.text Print.Options.default ryu v)) = .ok v s' ∧
       s'.rd.rest = [] ∧ s'.depth = 128 :=
   FullRT.C01_roundtrip_full_sources cfg ho ryu v h hn m
+
+/-- **C01_independent_reader**: the printed text is readable as the same datum by an independent reader of
+    the documented grammar (restates `Lexpr.C01_independent` of Proofs/SpecRTExec.lean). -/
+theorem C01_independent_reader (cfg : Parse.Cfg) (ryu : Nat → List UInt8) (v : Value)
+    (h : FullRT.AllSupportedFull cfg ryu v)
+    (hid : FullRT.AllLeaves (SpecRT.IdentNames Spec.unicodeAlphabetic) v) :
+    Spec.readScheme (Print.text Print.Options.default ryu v) = some v :=
+  C01_independent cfg ryu v h hid
 
 /-- to_string / to_vec / to_writer / Display all run the same printer: same emissions, same text -/
 theorem C01_entry_points (ryu : Nat → List UInt8) (v : Value) :
